@@ -3,7 +3,7 @@
 and any helper directory the demo needs) to /verif/seeded/Cnn-<slug>/ as patch.diff, demo.py, notes.md, meta.json"""
 import json, os, shutil, sys
 cid, k, slug = sys.argv[1:4]
-src = f"/tmp/seed_out/{cid}"
+src = os.environ.get("SEED_OUT", "/tmp/seed_out") + f"/{cid}"
 dst = f"/verif/seeded/{cid}-{slug}"
 os.makedirs(dst, exist_ok=True)
 shutil.copy(f"{src}/patch{k}.diff", f"{dst}/patch.diff")
@@ -18,7 +18,7 @@ open(f"{dst}/demo.py", "w").write(demo)
 if os.path.exists(f"{src}/notes{k}.md"):
     shutil.copy(f"{src}/notes{k}.md", f"{dst}/notes.md")
 files = [l[6:].strip() for l in open(f"{dst}/patch.diff") if l.startswith("+++ b/")]
-meta = {"property": cid, "name": f"{cid}-{slug}", "source": "fresh sub-agent given only the property text and a scratch worktree",
+meta = {"property": cid, "name": f"{cid}-{slug}", "source": "fresh sub-agent given only the property text and a scratch worktree" + (" (second round: also told which changes the first round had produced, to avoid repeats)" if "seed2" in src else ""),
         "files_changed": files}
 json.dump(meta, open(f"{dst}/meta.json", "w"), indent=1)
 print(dst, files)
